@@ -1,16 +1,18 @@
 #!/usr/bin/env python3
 """Apply each seeded mutation to /repo, run the quick checks, undo, record what was caught."""
 import json, os, subprocess, sys, shutil, glob
-PROPS = sorted(c["property_id"] for c in json.load(open('/verif/MANIFEST.json'))["checks"])
+ROOT = os.path.dirname(os.path.dirname(os.path.abspath(__file__)))
+REPO = os.environ.get('VERIF_REPO', '/repo')
+PROPS = sorted(c["property_id"] for c in json.load(open(ROOT + '/MANIFEST.json'))["checks"])
 def sh(cmd, **kw):
     return subprocess.run(cmd, shell=True, stdout=subprocess.PIPE, stderr=subprocess.STDOUT, text=True, **kw)
-seeds = sys.argv[1:] or sorted(glob.glob('/verif/seeded/*/'))
+seeds = sys.argv[1:] or sorted(glob.glob(ROOT + '/seeded/*/'))
 for d in seeds:
     d = d.rstrip('/')
     meta_path = os.path.join(d, 'meta.json')
     meta = json.load(open(meta_path))
-    assert sh('git -C /repo status --porcelain --untracked-files=no').stdout.strip() == '', 'repo not clean'
-    r = sh('git -C /repo apply %s/patch.diff' % d)
+    assert sh('git -C %s status --porcelain --untracked-files=no' % REPO).stdout.strip() == '', 'repo not clean'
+    r = sh('git -C %s apply %s/patch.diff' % (REPO, d))
     if r.returncode != 0:
         meta['evaluation'] = {'error': 'patch does not apply: ' + r.stdout[-300:]}
         json.dump(meta, open(meta_path, 'w'), indent=1); continue
@@ -18,7 +20,7 @@ for d in seeds:
     try:
         only = meta.get('check_props') or PROPS
         for p in only:
-            rr = sh('cd /verif && timeout 1500 ./check %s --tier quick' % p)
+            rr = sh('cd %s && timeout 2400 ./check %s --tier quick' % (ROOT, p))
             viol = [l for l in rr.stdout.splitlines() if l.startswith('VIOLATION')]
             details[p] = {'exit': rr.returncode, 'violations': viol[:3]}
             if rr.returncode != 0 or viol:
@@ -33,7 +35,7 @@ for d in seeds:
                     except Exception as e:
                         pass
     finally:
-        sh('git -C /repo checkout -- .')
+        sh('git -C %s checkout -- .' % REPO)
     meta['evaluation'] = {'caught_by': caught, 'checks': details}
     json.dump(meta, open(meta_path, 'w'), indent=1)
     print(os.path.basename(d), 'breaks', meta['property'], '-> caught by', caught, flush=True)
